@@ -66,32 +66,33 @@ type WriteFault struct {
 }
 
 type Plan struct {
-	Prop       string       `json:"prop"`
-	Seed       uint64       `json:"seed"`
-	Run        uint64       `json:"run"`
-	Tier       string       `json:"tier"`
-	Net        netsim.Spec  `json:"net"`
-	Ops        []Op         `json:"ops"`
-	Knobs      Knobs        `json:"knobs"`
-	Converters []string     `json:"converters"`
-	SchedSeed  uint64       `json:"sched_seed"`
-	Steps      []string     `json:"steps,omitempty"` // replay: labels to take (lenient)
-	MaxSteps   int          `json:"max_steps"`
-	ConvFail   bool         `json:"conv_fail,omitempty"`    // converter transient failures
-	ConvDie    bool         `json:"conv_die,omitempty"`     // converter exits in the middle of its input after printing one line (once per stream version)
-	ConvGarble bool         `json:"conv_garble,omitempty"`  // converter breaks the protocol once per stream version (one malformed line, then a normal answer)
-	MergeFail  bool         `json:"merge_fail,omitempty"`   // disk error: creating the merged index file fails (every merge)
-	MergeFailN int          `json:"merge_fail_n,omitempty"` // ... or only the first n merges (later ones succeed)
-	ImportFail int          `json:"import_fail,omitempty"`  // disk error: the first n index file creations of imports fail
-	WriteFail  []WriteFault `json:"write_fail,omitempty"`   // disk full during one step
-	Restarts   []int        `json:"restarts,omitempty"`     // clean restart after these step numbers
-	CrashEvery int          `json:"crash_every,omitempty"`  // C12: snapshot at every n-th changed I/O point (1 = all)
-	CrashMax   int          `json:"crash_max,omitempty"`
-	Listener   bool         `json:"listener,omitempty"` // attach an event listener
-	Loopback   bool         `json:"loopback,omitempty"` // C20: a PCAP-over-IP endpoint served over a real loopback socket (not replayable)
-	NoOracle   bool         `json:"no_oracle,omitempty"`
-	Yield      bool         `json:"yield,omitempty"` // gates inside the converter job: other steps may run between two rounds of conversions
-	Poip       bool         `json:"poip,omitempty"`  // C20: packets fed to the PCAP-over-IP handler (not replayable)
+	Prop          string       `json:"prop"`
+	Seed          uint64       `json:"seed"`
+	Run           uint64       `json:"run"`
+	Tier          string       `json:"tier"`
+	Net           netsim.Spec  `json:"net"`
+	Ops           []Op         `json:"ops"`
+	Knobs         Knobs        `json:"knobs"`
+	Converters    []string     `json:"converters"`
+	SchedSeed     uint64       `json:"sched_seed"`
+	Steps         []string     `json:"steps,omitempty"` // replay: labels to take (lenient)
+	MaxSteps      int          `json:"max_steps"`
+	ConvFail      bool         `json:"conv_fail,omitempty"`    // converter transient failures
+	ConvDie       bool         `json:"conv_die,omitempty"`     // converter exits in the middle of its input after printing one line (once per stream version)
+	ConvGarble    bool         `json:"conv_garble,omitempty"`  // converter breaks the protocol once per stream version (one malformed line, then a normal answer)
+	MergeFail     bool         `json:"merge_fail,omitempty"`   // disk error: creating the merged index file fails (every merge)
+	MergeFailN    int          `json:"merge_fail_n,omitempty"` // ... or only the first n merges (later ones succeed)
+	ImportFail    int          `json:"import_fail,omitempty"`  // disk error: the first n index file creations of imports fail
+	WriteFail     []WriteFault `json:"write_fail,omitempty"`   // disk full during one step
+	Restarts      []int        `json:"restarts,omitempty"`     // clean restart after these step numbers
+	CrashEvery    int          `json:"crash_every,omitempty"`  // C12: snapshot at every n-th changed I/O point (1 = all)
+	CrashMax      int          `json:"crash_max,omitempty"`
+	Listener      bool         `json:"listener,omitempty"` // attach an event listener
+	Loopback      bool         `json:"loopback,omitempty"` // C20: a PCAP-over-IP endpoint served over a real loopback socket (not replayable)
+	NoOracle      bool         `json:"no_oracle,omitempty"`
+	HideAtRestart string       `json:"hide_at_restart,omitempty"` // this converter's file is not executable at the first clean restart
+	Yield         bool         `json:"yield,omitempty"`           // gates inside the converter job: other steps may run between two rounds of conversions
+	Poip          bool         `json:"poip,omitempty"`            // C20: packets fed to the PCAP-over-IP handler (not replayable)
 	// weights for the scheduler (per mille): probability to prefer a
 	// background step over an API step when both are enabled
 	BgBias int `json:"bg_bias"`
@@ -796,6 +797,21 @@ func Gen(prop, tier string, seed, run uint64) Plan {
 		p.Restarts = []int{5 + r.IntN(40)}
 		if r.IntN(3) == 0 {
 			p.Restarts = append(p.Restarts, p.Restarts[0]+3+r.IntN(30))
+		}
+	}
+	if useConv && len(p.Converters) > 0 && len(p.Restarts) > 0 && (prop == "C16" || prop == "C06") && r.IntN(2) == 0 {
+		// not executable at the restart, made executable again by one of the last calls
+		c := p.Converters[r.IntN(len(p.Converters))]
+		p.HideAtRestart = c
+		id := 0
+		for _, o := range p.Ops {
+			if o.ID > id {
+				id = o.ID
+			}
+		}
+		p.Ops = append(p.Ops, Op{ID: id + 1, C: CMut, K: "ConvWrite", Conv: c})
+		if ex := existing(); len(ex) > 0 {
+			p.Ops = append(p.Ops, Op{ID: id + 2, C: CMut, K: "SetConv", Name: ex[r.IntN(len(ex))], Convs: []string{c}})
 		}
 	}
 	if cfg.LateStarts && (prop == "C13" || prop == "C12" || prop == "C10" || prop == "C07") && r.IntN(3) == 0 {
